@@ -176,14 +176,13 @@ package encode
 //@ func EncodeBytes
 //@   safety[C08]
 //@   requires b != nil
-//@   requires obj(v) != bobj(b)
 //@   modifies buffer.len at b
 //@   modifies buffer.obj at b
 //@   modifies uint8
 //@   let L = blen(b)
 //@   let n = len(v)
 //@   ensures[C08,C10] n <= 2147483647 ==> result1 == nil && result0 == n + uvarintLen(n) + 1 && blen(b) == L + result0
-//@   ensures[C08,C10] n <= 2147483647 ==> (forall i :: 0 <= i && i < n ==> bytesOf(bobj(b))[L + i] == old(v[i]))
+//@   ensures[C08,C10] n <= 2147483647 && obj(v) != old(bobj(b)) ==> (forall i :: 0 <= i && i < n ==> bytesOf(bobj(b))[L + i] == old(v[i]))
 //@   ensures[C08,C10] n <= 2147483647 ==> isUvarint(bytesOf(bobj(b)), L + n, uvarintLen(n), n) && bytesOf(bobj(b))[L + result0 - 1] == 50
 //@   ensures[C08] n > 2147483647 ==> result1 != nil && blen(b) == L
 //@   ensures[C08] forall i :: 0 <= i && i < L ==> bytesOf(bobj(b))[i] == old(bytesOf(bobj(b)))[i]
@@ -192,14 +191,13 @@ package encode
 //@ func EncodeString
 //@   safety[C08]
 //@   requires b != nil
-//@   requires obj(s) != bobj(b)
 //@   modifies buffer.len at b
 //@   modifies buffer.obj at b
 //@   modifies uint8
 //@   let L = blen(b)
 //@   let n = len(s)
 //@   ensures[C08,C10] n <= 2147483647 ==> result1 == nil && result0 == n + 1 + uvarintLen(n) + 1 && blen(b) == L + result0
-//@   ensures[C08,C10] n <= 2147483647 ==> (forall i :: 0 <= i && i < n ==> bytesOf(bobj(b))[L + i] == old(s[i]))
+//@   ensures[C08,C10] n <= 2147483647 && obj(s) != old(bobj(b)) ==> (forall i :: 0 <= i && i < n ==> bytesOf(bobj(b))[L + i] == old(s[i]))
 //@   ensures[C08] n <= 2147483647 ==> bytesOf(bobj(b))[L + n] == 0
 //@   ensures[C08,C10] n <= 2147483647 ==> isUvarint(bytesOf(bobj(b)), L + n + 1, uvarintLen(n), n) && bytesOf(bobj(b))[L + result0 - 1] == 60
 //@   ensures[C08] n > 2147483647 ==> result1 != nil && blen(b) == L
